@@ -57,11 +57,11 @@ pub fn lonlat_to_cell(lonlat: LonLat, resolution: i32) -> Result<u64, String> {
 
     for i in 0..n {
         let r = (i as f64 / n as f64) * scale;
-        let coordinate = LonLat::new(
-            lonlat.longitude() + (i as f64).cos() * r,
-            lonlat.latitude() + (i as f64).sin() * r,
-        );
-        samples.push(coordinate);
+        samples.push(offset_lonlat(
+            lonlat,
+            (i as f64).cos() * r,
+            (i as f64).sin() * r,
+        ));
     }
 
     // Deduplicate estimates
@@ -93,6 +93,25 @@ pub fn lonlat_to_cell(lonlat: LonLat, resolution: i32) -> Result<u64, String> {
     VERIF_LAST_BRANCH.with(|b| b.set(-1));
     cells.sort_by(|a, b| b.1.partial_cmp(&a.1).unwrap_or(std::cmp::Ordering::Equal));
     serialize(&cells[0].0)
+}
+
+/// Move a point by `east` / `north` degrees of arc along the local east and north directions.
+/// Unlike adding the offsets to longitude and latitude, the displacement has the same size and
+/// shape at every latitude, including next to the poles where meridians converge.
+fn offset_lonlat(lonlat: LonLat, east: f64, north: f64) -> LonLat {
+    let lon = lonlat.longitude().to_radians();
+    let lat = lonlat.latitude().to_radians();
+    let (de, dn) = (east.to_radians(), north.to_radians());
+    let (sin_lon, cos_lon) = lon.sin_cos();
+    let (sin_lat, cos_lat) = lat.sin_cos();
+    // p + de * east + dn * north, with p the unit vector of (lon, lat)
+    let x = cos_lat * cos_lon - de * sin_lon - dn * sin_lat * cos_lon;
+    let y = cos_lat * sin_lon + de * cos_lon - dn * sin_lat * sin_lon;
+    let z = sin_lat + dn * cos_lat;
+    LonLat::new(
+        y.atan2(x).to_degrees(),
+        z.atan2((x * x + y * y).sqrt()).to_degrees(),
+    )
 }
 
 /// The ij_to_s function uses the triangular lattice which only approximates the pentagon lattice
